@@ -241,6 +241,18 @@ theorem queue_tracks_history (d : Decl) (mem : Mem) (hS : ∀ S, d.queueSize = s
   have h := reachable_inv (State.init d mem) ⟨none, []⟩ rel_empty hS ops
   exact ⟨h.owner, by rw [h.buf]; exact elements_encode _ h.len⟩
 
+/-- **queue_iteration_in_bounds** (the write_queue.hpp part of "never out of bounds"): in every
+    reachable state the element iteration of Execute Write (`first_/next_write_queue_element`)
+    terminates exactly at `buffer_end_` for every client — the model's out-of-bounds result of the
+    iteration is never taken -/
+theorem queue_iteration_in_bounds (d : Decl) (mem : Mem) (hS : ∀ S, d.queueSize = some S → S < 65536)
+    (ops : List Op) (c : Nat) : ((run (State.init d mem) ops).1.queue.elementsOf c).isSome := by
+  have h := reachable_inv (State.init d mem) ⟨none, []⟩ rel_empty hS ops
+  unfold Queue.elementsOf
+  split
+  · rfl
+  · rw [h.buf, elements_encode _ h.len]; rfl
+
 /-- non-vacuity: two connections interleaved on a 16 byte queue; the second prepare of connection
     0 is accepted, the one of connection 1 is refused, the tracked list has two entries -/
 example :
